@@ -11,7 +11,7 @@
    Every theorem is for all N >= 1, all C >= 1 (where needed), all trees, all interleavings.
 
    This file contains only statements, each closed by [exact], and their assumption audit. *)
-From RJ Require Import Base.Prelude Model.Walker Proofs.WalkerProofs.
+From RJ Require Import Base.Prelude Model.Walker Proofs.WalkerProofs Proofs.WalkerJudge.
 From Coq Require Import Permutation.
 
 (* The reference walk is what remains of everything the workers send once the errors are removed. *)
@@ -86,6 +86,15 @@ Proof. intros N C root s H. exact (proj1 (I_C _ _ _ (reach_inv _ _ _ _ H))). Qed
 Theorem C17_no_panic : forall N C root s, reach N C root s -> forall w, In w (ws s) -> w <> WBad.
 Proof. exact no_panic. Qed.
 
+(* The extracted judge used by the tie accepts a complete listing iff it is what the theorems above
+   promise, and accepts every complete listing the model can produce. *)
+Theorem C17_admits_spec : forall t l, admits t true l = true <->
+  has_error t = false /\ Permutation l (walk_spec [] t) /\ parent_first l.
+Proof. exact admits_complete_spec. Qed.
+Theorem C17_model_listing_admitted : forall N C, N >= 1 -> forall root s,
+  reach N C root s -> cons s = CEos -> admits root true (recvd s) = true.
+Proof. exact model_listing_admitted. Qed.
+
 (* A concrete tree (excluded folder with content, link, nested folder), its reference walk, and what
    the judge [admits] says about a good and a bad listing. *)
 Example C17_example :
@@ -104,3 +113,5 @@ Print Assumptions C17_terminates.
 Print Assumptions C17_no_stuck.
 Print Assumptions C17_end_of_stream.
 Print Assumptions C17_error_surfaces.
+Print Assumptions C17_admits_spec.
+Print Assumptions C17_model_listing_admitted.
